@@ -35,6 +35,13 @@ func sleepCtx(d time.Duration, ctxKind string, dl time.Duration, mode int) Scena
 			cancel()
 		case "cancelAt":
 			ctx, cancel = context.WithCancel(ctx)
+		case "cancelCauseAt":
+			// cancelled mid-sleep with a cause: SleepContext still returns the context's error
+			c, cc := context.WithCancelCause(ctx)
+			ctx, cancel = c, func() { cc(errors.New("shutting down")) }
+		case "customPastDeadline":
+			// a caller-defined context type whose deadline has passed although it never ends
+			ctx = pastDeadline{ctx, time.Now().Add(dl)}
 		case "farDeadlineCancelAt":
 			// a context that has a (far) deadline and is cancelled mid-sleep
 			ctx, cancel = context.WithDeadline(ctx, time.Now().Add(100*d+dl))
@@ -47,7 +54,7 @@ func sleepCtx(d time.Duration, ctxKind string, dl time.Duration, mode int) Scena
 			start   time.Duration
 		}
 		// the context's deadline on the virtual clock, if it has one
-		hasDeadline := ctxKind == "deadline" || ctxKind == "farDeadlineCancelAt"
+		hasDeadline := ctxKind == "deadline" || ctxKind == "farDeadlineCancelAt" || ctxKind == "customPastDeadline"
 		dlAbs := hx.Now() + dl
 		if ctxKind == "farDeadlineCancelAt" {
 			dlAbs = hx.Now() + 100*d + dl
@@ -59,7 +66,7 @@ func sleepCtx(d time.Duration, ctxKind string, dl time.Duration, mode int) Scena
 			el := hx.Now() - start
 			hx.Atomically(func() { shared = res{true, err, el, start} })
 		}()
-		if ctxKind == "cancelAt" || ctxKind == "farDeadlineCancelAt" {
+		if ctxKind == "cancelAt" || ctxKind == "farDeadlineCancelAt" || ctxKind == "cancelCauseAt" {
 			hx.Sleep(dl)
 			cancel()
 			// The context has ended and the clock is stopped: a SleepContext that is still parked now
@@ -115,6 +122,14 @@ func sleepCtx(d time.Duration, ctxKind string, dl time.Duration, mode int) Scena
 		hx.Outcome("err=%v elapsed=%v", r.err, r.elapsed)
 	}}
 }
+
+// pastDeadline is a context of the caller's own making: it reports a deadline and never ends.
+type pastDeadline struct {
+	context.Context
+	dl time.Time
+}
+
+func (p pastDeadline) Deadline() (time.Time, bool) { return p.dl, true }
 
 // ticker: receive n ticks at the consumer's own pace; other = "", "reset" (Reset(d2,j2) from another
 // thread at any time), "stop" (Stop from another thread at any time).
@@ -227,6 +242,9 @@ func All() []Scenario {
 			sleepCtx(10*ms, "cancelAt", 0, mode),
 			sleepCtx(10*ms, "cancelAt", 15*ms, mode),
 			sleepCtx(10*ms, "farDeadlineCancelAt", 5*ms, mode),
+			sleepCtx(10*ms, "cancelCauseAt", 5*ms, mode),
+			sleepCtx(10*ms, "customPastDeadline", -5*ms, mode),
+			sleepCtx(10*ms, "customPastDeadline", 5*ms, mode),
 		)
 	}
 	out = append(out,
